@@ -14,6 +14,7 @@ panic is an explicit `hostPanic` (`Res.panic`):
 | inner `_ => unreachable!()` of Add/Sub, Sat*, Gt/Lt/Eq | `arith`, `satArith`, `compare`          |
 | `x.checked_add(1).assume(..)` (`buggy`: panics when `debug_assertions`) | `checkedInc`, `countRows` |
 | `Vec::with_capacity(n)` in `MStructSet` (before the fix) | `mstructAlloc` (flag generated)       |
+| `assert!(pos < text.len())` in `SpannedText::linecol` on the error path (before the fix) | `linecol`/`locate` (flag generated) |
 
 Machine I/O (`MachineIO`: facts, effects, FFI) and the struct codec of `serialize.rs` are
 *parameters*: each step consumes a list of `IoRes` answers chosen by the environment.
@@ -60,6 +61,13 @@ structure FactDef where
   vals : List (Nat × Ty)
 deriving Inhabited
 
+/-- `CodeMap`: source text (bytes; the tie uses ASCII texts) and the sorted
+instruction → span table -/
+structure CodeMap where
+  text : List Nat
+  mapping : List (Nat × Nat × Nat)
+deriving Inhabited
+
 structure Machine where
   progmem : List Instr
   globals : List (Nat × Value)
@@ -71,6 +79,8 @@ structure Machine where
   actionDefs : List (Nat × List (Nat × Ty)) := []
   /-- `command_defs`: name ↦ fields -/
   commandDefs : List (Nat × List (Nat × Ty)) := []
+  /-- `codemap: Option<CodeMap>` -/
+  codemap : Option CodeMap := none
 deriving Inhabited
 
 structure RunState where
@@ -86,6 +96,10 @@ structure RunState where
   iters : List (List Row)
   /-- remaining environment answers for the current step -/
   io : List IoRes
+  /-- set by the error sites whose `MachineError` is built WITHOUT a source position (plain `?`
+  conversions from `MachineErrorType` / `MachineIOError`, `MachineError::new`); every other error goes
+  through `self.err(..)` / `from_position`, which looks the position up in the code map -/
+  errNoPos : Bool := false
 deriving Inhabited
 
 def RunState.init (ctx : Ctx) : RunState :=
@@ -117,6 +131,13 @@ instance : Monad M where
   bind := M.bind
 
 def throw {α} (e : Err) : M α := fun s => .err e s
+/-- an error built without a source position -/
+def throwNoPos {α} (e : Err) : M α := fun s => .err e { s with errNoPos := true }
+/-- `m`'s errors are propagated by a plain `?` (no position attached) -/
+def noPos {α} (m : M α) : M α := fun s =>
+  match m s with
+  | .err e s' => .err e { s' with errNoPos := true }
+  | r => r
 /-- a Rust panic -/
 def hostPanic {α} : M α := fun _ => .panic
 def liftE {α} (x : Except Err α) : M α := fun s =>
@@ -545,10 +566,10 @@ def exec (m : Machine) (pc : Nat) (instr : Instr) : M Ctl :=
   | .Identifier n => do push (.ident n); pure .next
   | .Def k => do
     let v ← popValue
-    scopeSet m.globals k v
+    noPos (scopeSet m.globals k v)
     pure .next
   | .Get k => do
-    let v ← scopeGet m.globals k
+    let v ← noPos (scopeGet m.globals k)
     push v
     pure .next
   | .Dup => do
@@ -586,8 +607,8 @@ def exec (m : Machine) (pc : Nat) (instr : Instr) : M Ctl :=
     match (← nextIo) with
     | some (.ext ops ok) => do
       applyOps ops
-      if ok then pure .next else throw .io
-    | _ => throw .io
+      if ok then pure .next else throwNoPos .io
+    | _ => throwNoPos .io
   | .Return => do
     if (← callEmpty) then pure (.exited .Normal)
     else
@@ -710,25 +731,25 @@ def exec (m : Machine) (pc : Nat) (instr : Instr) : M Ctl :=
     else throw .invalidSchema
   | .Create => do
     let _ ← popFact
-    ioUnit
+    noPos ioUnit
     pure .next
   | .Delete => do
     let _ ← popFact
-    ioUnit
+    noPos ioUnit
     pure .next
   | .Update => do
     let _ ← popFact
     let (_, _, fromVals) ← popFact
-    let rows ← ioQuery
+    let rows ← noPos ioQuery
     match rows with
     | [] => throw .invalidFact
-    | none :: _ => throw .io
+    | none :: _ => throwNoPos .io
     | some (_, replacedVals) :: _ =>
       if updateMismatch updateGivenOnly fromVals replacedVals then
         throw .invalidFact
       else do
-        ioUnit
-        ioUnit
+        noPos ioUnit
+        noPos ioUnit
         pure .next
   | .Emit => do
     let (name, fields) ← popStruct
@@ -741,15 +762,15 @@ def exec (m : Machine) (pc : Nat) (instr : Instr) : M Ctl :=
   | .Query => do
     let (name, keys, vals) ← popFact
     if validateFactLiteral m.factDefs name keys vals then do
-      let rows ← ioQuery
-      match (← liftE (findRow keys vals rows)) with
+      let rows ← noPos ioQuery
+      match (← noPos (liftE (findRow keys vals rows))) with
       | none => do push .none; pure .next
       | some (k, v) => do push (.some (rowStruct name k v)); pure .next
     else throw .invalidSchema
   | .FactCount limit => do
     let (name, keys, vals) ← popFact
     if validateFactLiteral m.factDefs name keys vals then do
-      let rows ← ioQuery
+      let rows ← noPos ioQuery
       match countRows keys vals limit rows 0 with
       | none => hostPanic
       | some r => do
@@ -760,16 +781,16 @@ def exec (m : Machine) (pc : Nat) (instr : Instr) : M Ctl :=
   | .QueryStart => do
     let (name, keys, vals) ← popFact
     if validateFactLiteral m.factDefs name keys vals then do
-      let rows ← ioQuery
+      let rows ← noPos ioQuery
       pushIter (queryRows queryNextFilters keys vals rows)
       pure .next
     else throw .invalidSchema
   | .QueryNext id => do
     match (← iterNext) with
     | none => throw .badState
-    | some (some none) => throw .io
+    | some (some none) => throwNoPos .io
     | some (some (some (k, v))) => do
-      scopeSet m.globals id (rowStruct id k v)
+      noPos (scopeSet m.globals id (rowStruct id k v))
       push (.bool false)
       pure .next
     | some none => do
@@ -796,6 +817,45 @@ def exec (m : Machine) (pc : Nat) (instr : Instr) : M Ctl :=
     | _ => throw .invalidInstruction
   | .Meta _ => pure .next
 
+/-! ## error positions (`MachineError::with_position`, `RunState::source_location`)
+
+`CodeMap::span_from_instruction` + `SpannedText::{new, start_linecol}` of aranya-policy-module, which
+the VM calls while BUILDING a `MachineError` (and in `source_location`). -/
+
+/-- the entry the binary search selects: the last one starting at or before `ip` (`none` = `RangeError`) -/
+def lastLE (ip : Nat) : List (Nat × Nat × Nat) → Option (Nat × Nat)
+  | [] => none
+  | (i, sp) :: r =>
+    if i ≤ ip then
+      match lastLE ip r with
+      | some x => some x
+      | none => some sp
+    else none
+
+/-- `SpannedText::linecol(pos)`; `none` = its `assert!` fires (a panic).  `strict`: the assertion
+is `pos < len` (before the fix) instead of `pos <= len`. -/
+def linecol (strict : Bool) (text : List Nat) (pos : Nat) : Option (Nat × Nat) :=
+  if (if strict then pos < text.length else pos ≤ text.length) then
+    some ((text.take pos).foldl (fun (lc : Nat × Nat) c => if c = 10 then (lc.1 + 1, 1) else (lc.1, lc.2 + 1)) (1, 1))
+  else none
+
+/-- the source position attached to an error raised at `pc`: outer `none` = host panic, inner
+`none` = no position (no code map, no entry at or before `pc`, or a span outside the text) -/
+def locateWith (strict : Bool) (m : Machine) (pc : Nat) : Option (Option (Nat × Nat)) :=
+  match m.codemap with
+  | none => some none
+  | some cm =>
+    match lastLE pc cm.mapping with
+    | none => some none
+    | some (s, e) =>
+      if s ≤ e ∧ e ≤ cm.text.length then
+        match linecol strict cm.text s with
+        | none => none
+        | some lc => some (some lc)
+      else some none
+
+def locate (m : Machine) (pc : Nat) : Option (Option (Nat × Nat)) := locateWith linecolAssertStrict m pc
+
 /-! ## `step` and `run` -/
 
 inductive Outcome where
@@ -811,15 +871,24 @@ deriving Inhabited
 
 /-- `RunState::step`, given the environment's answers for this step -/
 def step (m : Machine) (s0 : RunState) (io : List IoRes) : Outcome :=
-  let s := { s0 with io := io }
-  if s.pc ≥ m.progmem.length then .error .invalidAddress s
+  let s := { s0 with io := io, errNoPos := false }
+  if s.pc ≥ m.progmem.length then
+    -- `self.err(..)` looks the position up in the code map
+    (match locate m s.pc with
+     | none => .hostPanic
+     | some _ => .error .invalidAddress s)
   else
     match m.progmem[s.pc]? with
     | none => .hostPanic
     | some instr =>
       match exec m s.pc instr s with
       | .panic => .hostPanic
-      | .err e s' => .error e s'
+      | .err e s' =>
+        if s'.errNoPos then .error e s'
+        else
+          (match locate m s'.pc with
+           | none => .hostPanic
+           | some _ => .error e s')
       | .ok ctl s' =>
         match ctl with
         | .next => match checkedInc s.pc with
@@ -848,7 +917,11 @@ def run (m : Machine) (env : Nat → List IoRes) : Nat → Nat → RunState → 
     match step m s (env k) with
     | .executing s' => run m env fuel (k + 1) s'
     | .exited r s' => .exit r s'
-    | .error e s' => .machineError e s'
+    | .error e s' =>
+      -- `.map_err(|err| err.with_position(self.pc, codemap))`: an error without a position gets one
+      (match locate m s'.pc with
+       | none => .hostPanic
+       | some _ => .machineError e s')
     | .hostPanic => .hostPanic
 
 /-! ## entry points: `setup_*` and `call_*`
@@ -888,10 +961,10 @@ def argsFit : List Value → List (Nat × Ty) → Bool
 /-- `setup_action` -/
 def setupAction (m : Machine) (name : Nat) (args : List Value) : M Unit := do
   match findDef name m.actionDefs with
-  | none => throw .notDefined
+  | none => throwNoPos .notDefined
   | some params =>
-    if args.length != params.length then throw .unknown
-    else if !argsFit args params then throw .invalidType
+    if args.length != params.length then throwNoPos .unknown
+    else if !argsFit args params then throwNoPos .invalidType
     else do
       setupFunction m name .Action
       pushAll args
@@ -927,16 +1000,16 @@ deriving Inhabited
 def enter (m : Machine) : Entry → M Unit
   | .action name args => do
     match (← getCtx) with
-    | .action c => if c = name then setupAction m name args else throw .contextMismatch
-    | _ => throw .contextMismatch
+    | .action c => if c = name then setupAction m name args else throwNoPos .contextMismatch
+    | _ => throwNoPos .contextMismatch
   | .commandPolicy tn tf en ef => do
     match (← getCtx) with
     | .policy c =>
       if c = tn then do
         setupCommand m .CommandPolicy tn tf
         push (.struct en ef)
-      else throw .contextMismatch
-    | _ => throw .contextMismatch
+      else throwNoPos .contextMismatch
+    | _ => throwNoPos .contextMismatch
   | .seal tn tf payload => do
     match (← getCtx) with
     | .seal c =>
@@ -944,8 +1017,8 @@ def enter (m : Machine) : Entry → M Unit
         setupFunction m tn .CommandSeal
         push (.struct tn tf)
         push (.bytes payload)
-      else throw .contextMismatch
-    | _ => throw .contextMismatch
+      else throwNoPos .contextMismatch
+    | _ => throwNoPos .contextMismatch
   | .opn tn tf payload en ef => do
     match (← getCtx) with
     | .opn c =>
@@ -954,14 +1027,19 @@ def enter (m : Machine) : Entry → M Unit
         push (.struct tn tf)
         push (.bytes payload)
         push (.struct en ef)
-      else throw .contextMismatch
-    | _ => throw .contextMismatch
+      else throwNoPos .contextMismatch
+    | _ => throwNoPos .contextMismatch
 
 /-- `call_*`: the entry wrapper followed by `run` (with a step budget) -/
 def call (m : Machine) (env : Nat → List IoRes) (fuel : Nat) (e : Entry) (s : RunState) : RunOutcome :=
-  match enter m e s with
+  match enter m e { s with errNoPos := false } with
   | .ok _ s' => run m env fuel 0 s'
-  | .err er s' => .machineError er s'
+  | .err er s' =>
+    if s'.errNoPos then .machineError er s'
+    else
+      (match locate m s'.pc with
+       | none => .hostPanic
+       | some _ => .machineError er s')
   | .panic => .hostPanic
 
 end AranyaV.VM
